@@ -26,6 +26,11 @@ TDIR = os.path.join(HERE, "templates")
 L, Rr = "⟦", "⟧"   # hole brackets
 
 
+def comment_safe(t):
+    """text that can sit inside a Coq comment: no comment brackets, no string quotes"""
+    return t.replace("*)", "* )").replace("(*", "( *").replace('"', "''")
+
+
 def strip_comments(text):
     out = []
     for line in text.split("\n"):
@@ -191,7 +196,7 @@ def render(repo):
            "Inductive unrecognised := Unrecognised.",
            ""]
     for fid, (ok, rel, diag) in sorted(file_ok.items()):
-        out.append("(* %s%s *)" % (rel, "" if ok else "  -- NOT RECOGNISED: " + diag.replace("*)", "* )").replace("(*", "( *")))
+        out.append("(* %s%s *)" % (rel, "" if ok else "  -- NOT RECOGNISED: " + comment_safe(diag)))
         if ok:
             out.append("Definition file_%s : bool := true." % fid)
         else:
@@ -201,7 +206,7 @@ def render(repo):
         if ok:
             out.append("Definition scan_%s : bool := true." % name)
         else:
-            out.append("(* scan %s found: %s *)" % (name, repr(found).replace("*)", "* )").replace("(*", "( *")))
+            out.append("(* scan %s found: %s *)" % (name, comment_safe(repr(found))))
             out.append("Definition scan_%s : unrecognised := Unrecognised." % name)
             broken.append(("scan_" + name, "unexpected occurrences: %r" % (found,)))
     out.append("")
